@@ -13,6 +13,12 @@
 //                  stringify_internal and dyn-fmt's format; the real stderr of the binary is compared
 //                  separately by the check)
 //
+//   all-direct line: <built-in name> TAB hex(src of a list literal [a, b, ..]) [TAB hex(inputs json)]
+//              -> BuiltInFunction::call(args, ..) invoked DIRECTLY, i.e. WITHOUT FunctionDef::check_arity:
+//                 OK:<canonical value> | ERR | ERRDEPTH ; a panic (e.g. args[i] past a too short vector) comes
+//                 back as `PANIC <hex msg>` from main.rs's catch_unwind.  Ties the model's explicit Panic arms
+//                 (and the order of args[i] / type checks inside each arm) to the code.
+//
 // The programs themselves go through the ordinary `parse` / `eval` streams.
 use crate::show::{hex, num_bits, unhex};
 use crate::streams::Session;
@@ -77,6 +83,59 @@ fn str_line(line: &str) -> String {
         _ => return "BAD".into(),
     };
     hex(r.as_bytes())
+}
+
+/// evaluates the list literal `src` in a fresh session; Err(text) = the answer line for a failure
+fn eval_list(src: &str, inputs: Option<&str>) -> Result<(Session, Vec<Value>), String> {
+    let sess = Session::new(inputs).map_err(|_| "BADINPUT".to_string())?;
+    let pairs = get_pairs(src).map_err(|_| "REJECT".to_string())?;
+    let mut val: Option<Value> = None;
+    for pair in pairs {
+        if pair.as_rule() != Rule::statement {
+            continue;
+        }
+        if let Some(inner) = pair.into_inner().next() {
+            if inner.as_rule() == Rule::expression {
+                match evaluate_pairs(inner.into_inner(), Rc::clone(&sess.heap), Rc::clone(&sess.bindings), 0, src) {
+                    Ok(v) => val = Some(v),
+                    Err(_) => return Err("ARGERR".into()),
+                }
+            }
+        }
+    }
+    let args: Vec<Value> = {
+        let heap = sess.heap.borrow();
+        match val {
+            Some(Value::List(p)) => match p.reify(&heap).as_list() {
+                Ok(l) => l.clone(),
+                Err(_) => return Err("ARGERR".into()),
+            },
+            _ => return Err("ARGERR".into()),
+        }
+    };
+    Ok((sess, args))
+}
+
+fn direct_line(line: &str) -> String {
+    let mut parts = line.split('\t');
+    let name = parts.next().unwrap_or("");
+    let src = match String::from_utf8(unhex(parts.next().unwrap_or(""))) {
+        Ok(s) => s,
+        Err(_) => return "BADUTF8".into(),
+    };
+    let inputs = parts.next().and_then(|h| String::from_utf8(unhex(h)).ok());
+    let b = match BuiltInFunction::from_ident(name) {
+        Some(b) => b,
+        None => return "NOBUILTIN".into(),
+    };
+    let (sess, args) = match eval_list(&src, inputs.as_deref()) {
+        Ok(x) => x,
+        Err(t) => return t,
+    };
+    match b.call(args, Rc::clone(&sess.heap), Rc::clone(&sess.bindings), 0, &src) {
+        Ok(v) => format!("OK:{}", crate::show::show_value(&v, &sess.heap.borrow(), false)),
+        Err(e) => crate::streams::classify_err(&e.to_string()).to_string(),
+    }
 }
 
 fn print_line(line: &str) -> String {
@@ -161,6 +220,7 @@ pub fn dispatch(sub: &str, _rest: &[String], line: &str) -> Option<String> {
         }
         "all-str" => Some(str_line(line)),
         "all-print" => Some(print_line(line)),
+        "all-direct" => Some(direct_line(line)),
         _ => None,
     }
 }
